@@ -4,7 +4,9 @@ prop=$1; patch=$2; tier=${3:-quick}
 cd /repo || exit 2
 if [ -n "$(git status --porcelain)" ]; then echo "repo not clean"; exit 2; fi
 git apply "$patch" || { echo "patch does not apply"; exit 2; }
+cd /verif && cp -a evidence/$prop.json .evidence.$prop.keep 2>/dev/null
 cd /verif && ./check $prop $tier 2>&1 | grep -E "^(VIOLATION|OK|INCONCLUSIVE|SPURIOUS|KNOWN|  harness|  native)" | cut -c1-400 | head -20
 rc=${PIPESTATUS[0]}
 git -C /repo checkout -- . && git -C /repo clean -fdq
+[ -f /verif/.evidence.$prop.keep ] && mv /verif/.evidence.$prop.keep /verif/evidence/$prop.json
 echo "check exit=$rc"
